@@ -10,7 +10,7 @@ import hashlib
 from trie.exceptions import FullDirectionalVisibility, PerfectVisibility
 from trie.fog import HexaryTrieFog
 
-from ..core import HarnessError, Violation
+from ..core import HarnessError, Violation, deep
 from .c09 import fog_members
 
 ID = "C11"
@@ -46,6 +46,7 @@ PROBES = [
     "full-directional-visibility",
     "fog-complete",
     "retained-fog-rechecked",
+    "restart-with-format-literal-in-prefix",
 ]
 FAULTS = ["resp-dup", "resp-early", "resp-lost", "resp-malformed", "fog-restart", "msg-reorder"]
 COMPONENTS = {
@@ -57,6 +58,11 @@ ASSUMPTIONS = [
     "the unexplored set is observed through the public API only (enumeration by nearest_right)",
     "which exception type rejects a delivery is not judged, only that it raises and changes nothing",
 ]
+
+
+def bytes_of_even(nibs):
+    n = nibs[: len(nibs) - len(nibs) % 2]
+    return bytes(n[i] << 4 | n[i + 1] for i in range(0, len(n), 2))
 
 
 def tup(x):
@@ -221,6 +227,8 @@ class World:
             self.viol("roundtrip", "deserialize(serialize(fog)) != fog")
         rep.fog = new
         self.st.fault("fog-restart")
+        if any(len(m) >= 2 and any(bytes_of_even(m).find(t) >= 0 for t in TOKENS) for m in rep.members):
+            self.st.probe("restart-with-format-literal-in-prefix")
         self.st.probe("restart-roundtrip")
         self.check_replica(rep, "restart through serialize/deserialize")
         return "ok"
@@ -308,6 +316,21 @@ def execute(case, st):
     return w
 
 
+# literals of the serialisation format (visible in serialize() output); prefixes that
+# spell them byte-aligned exercise the parser the way dictionary-based fuzzing does
+TOKENS = [b"HexaryTrieFog:", b"'", b'"', b"\\", b"]", b"[", b", ", b"b'", b"\\x", b"\n", b"\\'", b"HexaryTrieFog:[b'']"]
+
+
+def token_segment(rng):
+    data = bytes(rng.randrange(256) for _ in range(rng.choice([0, 0, 1, 2])))
+    for _ in range(rng.choice([1, 1, 2, 3])):
+        data += rng.choice(TOKENS) + bytes(rng.randrange(32, 127) for _ in range(rng.choice([0, 1, 2])))
+    out = []
+    for b in data:
+        out += [b >> 4, b & 15]
+    return out
+
+
 def gen_shape(rng, prefix, depth, maxdepth):
     """Sub-segments a peer reports for `prefix`."""
     if depth >= maxdepth:
@@ -316,6 +339,8 @@ def gen_shape(rng, prefix, depth, maxdepth):
     if r < 0.3:
         return []
     if r < 0.45:
+        if len(prefix) % 2 == 0 and rng.random() < 0.25:
+            return [token_segment(rng)]
         return [[rng.randrange(16) for _ in range(rng.randint(1, 5))]]
     if r < 0.85:
         n = rng.choice([1, 2, 2, 3, 4, 8, 16])
@@ -331,7 +356,7 @@ def gen_shape(rng, prefix, depth, maxdepth):
 
 def generate(rng):
     maxdepth = rng.choice([1, 2, 3, 4, 6])
-    budget = rng.choice([5, 10, 20, 40])
+    budget = rng.choice(deep([5, 10, 20, 40], [10, 20, 40, 80, 160]))
     responses = []
     frontier = [((), 0)]
     while frontier:
@@ -346,6 +371,7 @@ def generate(rng):
             else:
                 frontier.append((prefix, maxdepth))
     p_dup, p_lost, p_mal, p_early, p_q = (rng.choice([0.0, 0.1, 0.3]) for _ in range(5))
+    p_restart = rng.choice([0.0, 0.04, 0.04, 0.3])
     cmds = []
 
     def malformed(prefix, segs):
@@ -415,7 +441,7 @@ def generate(rng):
                     base = rng.choice(responses)[0]
                     qk = base[: rng.randint(0, len(base))] + [rng.randrange(16) for _ in range(rng.randint(0, 2))]
                     cmds.append({"op": "query", "r": r, "kind": rng.choice(["unknown", "right"]), "qk": qk})
-            if rng.random() < 0.04:
+            if rng.random() < p_restart:
                 cmds.append({"op": "restart", "r": r})
         if leaves:
             cmds.append({"op": "mark", "r": r, "prefixes": leaves})
